@@ -25,6 +25,7 @@ mod verif;
 #[path = "/repo/src/zobrist.rs"]
 mod zobrist;
 
+mod bb;
 mod ev;
 mod glue;
 mod mon;
@@ -76,7 +77,14 @@ fn main() {
                 println!("INCONCLUSIVE harness self-test failed:\n{}", e);
                 std::process::exit(2);
             }
-            let code = mon::run_check(&args[2], tier, seed);
+            let prop = args[2].clone();
+            let code = match std::panic::catch_unwind(move || mon::run_check(&prop, tier, seed)) {
+                Ok(c) => c,
+                Err(_) => {
+                    println!("INCONCLUSIVE harness panicked (see stderr); no verdict");
+                    2
+                }
+            };
             std::process::exit(code);
         }
         "replay" => {
